@@ -21,7 +21,7 @@ def stages(tier, seed, bins):
     for i in range(n):
         m = rnd.choice(["le", "dm"])
         N = rnd.choice([10, 16, 30, 60, 120] + ([250] if tier == "thorough" else []))
-        kind = rnd.choice(["gauss", "swiss", "clusters", "scurve", "lattice"])
+        kind = rnd.choice(["gauss", "swiss", "clusters", "scurve", "lattice", "jgrid"])
         D = 3 if kind in ("swiss", "scurve") else rnd.choice([2, 3, 5])
         td = min(rnd.choice([1, 2, 3, 5]), N - 2)
         # width relative to the data scale (coordinates O(1..10)): six decades
@@ -31,6 +31,10 @@ def stages(tier, seed, bins):
             c.update(nc=rnd.choice([2, 3]), gap=rnd.choice([3, 6]), ratio=rnd.choice([1.0, 0.5]))
         if kind == "lattice":
             c["ldims"] = 2
+        if kind == "jgrid":
+            # uniform neighbour distances: tiny but non-underflowing weights for small widths
+            c["width"] = rnd.choice([0.025, 0.01, 0.1, 1.0, 10.0])
+            c["D"] = rnd.choice([2, 3])
         if m == "le":
             c["k"] = max(3, min(N - 1, rnd.choice([3, 4, 5, 8, N // 2, N - 1])))
             c["nm"] = rnd.choice(["brute", "vptree", "covertree"])
